@@ -17,6 +17,7 @@ import random
 from typing import Any, List, Tuple
 
 from harness.core import Component, Ctx, run_component
+from harness.lib.c15_vals import val_of, val_id, obs, obs_model, gen_val
 from harness.lib.c15_ttl import TtlLruComp, TtlMgrComp, TtlLruExhaustive
 from harness.lib.c15_det import LSetComp, LMapComp, RingComp, LMapExhaustive, RingExhaustive
 from harness.lib.c15_merge import MergeComp, WrapSchedComp, thread_stress
@@ -28,6 +29,9 @@ RULE = ("operation sequences over small key/cost alphabets with boundary-biased 
         "Components *_x enumerate ALL sequences of a small alphabet (ttllru_x: length<=4 over 5 ops x clock advances {0,ttl,ttl+1} x caps {1,2}; "
         "lmap_x: length<=4 over 10 ops x caps {1,2} x both flags; ring_x: length<=5 over 7 ops x k in {1,2,3}): a seed-dependent slice in quick, the whole space in thorough")
 ASSUMPTIONS = [
+    "stored values are opaque to the containers: the models carry value ids (naturals), the harness maps ids to Python objects whose domain includes "
+    "None, 0, '', False, (), 0.0 (a hit on such a value is still a hit: returned, counted, moved to MRU) and get(key, default) with None/falsy/ordinary defaults; "
+    "set-like containers are driven with '', None, 0 among their elements; falsy keys (0, '', None, False) are in the key pool",
     "keys and values are mapped to naturals (hashable Python keys are only compared for equality); for LRUCache/CacheManager the key identity is "
     "the harness's own normalisation (hashable as-is, else compact sorted-key JSON), checked against stable_key/_hashable_or_stable on a pool with collisions",
     "LRUBytes capacities are non-negative (negative caps are outside every validated configuration); the TTL LRU and the deterministic containers are modelled for every integer capacity",
@@ -83,7 +87,7 @@ class LruBytesComp(Component):
         for _ in range(rng.choice([3, 8, 20, 60])):
             r = rng.random()
             if r < 0.55:
-                ops.append(["put", rng.randrange(nk), rng.randrange(1000), rng.choice(costs)])
+                ops.append(["put", rng.randrange(nk), gen_val(rng), rng.choice(costs)])
             elif r < 0.85:
                 ops.append(["get", rng.randrange(nk)])
             elif r < 0.97:
@@ -100,16 +104,16 @@ class LruBytesComp(Component):
     def impl(self, case: dict) -> Any:
         from clematis.engine.util.lru_bytes import LRUBytes
         ev: List[list] = []
-        c = LRUBytes(case["maxE"], case["maxB"], on_evict=lambda k, v, b: ev.append([k, v, b]))
+        c = LRUBytes(case["maxE"], case["maxB"], on_evict=lambda k, v, b: ev.append([k, val_id(v), b]))
         out = []
         states = []
         for op in case["ops"]:
             del ev[:]
             if op[0] == "put":
-                r = c.put(op[1], op[2], op[3])
+                r = c.put(op[1], val_of(op[2]), op[3])      # value ids denote Python objects incl. None/0/""/False
                 out.append({"r": list(r), "ev": [list(e) for e in ev], "s": self._obs(c)})
             elif op[0] == "get":
-                out.append({"r": c.get(op[1]), "s": self._obs(c)})
+                out.append({"r": obs(c.get(op[1])), "s": self._obs(c)})
             elif op[0] == "contains":
                 out.append({"r": op[1] in c, "s": self._obs(c)})
             else:
@@ -117,8 +121,9 @@ class LruBytesComp(Component):
                 out.append({"r": None, "s": self._obs(c)})
             # full observable state for the Lean-side invariant monitor
             q = list(c._q)
-            items = [[k, c._map[k][0], c._map[k][1]] if k in c._map else [k, -1, -1] for k in q]
-            states.append({"items": items, "bytes": c._bytes, "mapn": len(c._map)})
+            items = [[k, val_id(c._map[k][0]), c._map[k][1]] if k in c._map else [k, -1, -1] for k in q]
+            states.append({"items": items, "bytes": c._bytes, "mapn": len(c._map),
+                           "public_items": [[k, val_id(v)] for k, v in c.items()]})
         return {"out": out, "states": states}
 
     def compare(self, case, impl_out, model_out):
@@ -128,9 +133,11 @@ class LruBytesComp(Component):
 
     def canon_model(self, case, out):
         if isinstance(out, list):
-            for o in out:
+            for op, o in zip(case["ops"], out):
                 if isinstance(o, dict) and isinstance(o.get("s"), dict):
                     o["s"].pop("inv", None)
+                if isinstance(o, dict) and op[0] == "get":
+                    o["r"] = obs_model(o.get("r"))      # LRUBytes.get returns a stored None as None
         return out
 
     def monitor_requests(self, case, impl_out) -> List[Tuple[str, dict]]:
@@ -148,7 +155,19 @@ class LruBytesComp(Component):
         res = []
         # eviction reports: evicted entries are a prefix of the previous recency order
         prev: List[int] = []
-        for op, o in zip(case["ops"], impl_out["out"]):
+        pitems: List[list] = []
+        for op, o, st in zip(case["ops"], impl_out["out"], impl_out["states"]):
+            if op[0] == "get":
+                # a present key is a hit whatever its value (None, 0, "", False …): value returned, key → MRU
+                ent = next((it for it in pitems if it[0] == op[1]), None)
+                if ent is not None:
+                    ok = o["r"] == obs_model(ent[1]) and o["s"]["keys"] == [k for k in prev if k != op[1]] + [op[1]]
+                else:
+                    ok = o["r"] is None and o["s"]["keys"] == prev
+                res.append(("get_hit_refreshes", ok, f"get {op[1]} -> {o['r']}: entry {ent}, order {prev} -> {o['s']['keys']}"))
+            res.append(("items_match_state", st["public_items"] == [[it[0], it[1]] for it in st["items"]]
+                        or (case["maxE"] == 0 and case["maxB"] == 0), f"items() {st['public_items']} vs {st['items']}"))
+            pitems = st["items"]
             if op[0] == "put" and o["ev"]:
                 order = [k for k in prev if k != op[1]] + [op[1]]
                 evk = [e[0] for e in o["ev"]]
@@ -172,6 +191,8 @@ class LruBytesComp(Component):
                     t.add("evict_many")
             if op[0] == "get" and o["r"] is not None:
                 t.add("hit")
+            if op[0] == "put" and o["s"]["keys"] and o["s"]["keys"][-1] == op[1] and 0 <= op[2] < 6:
+                t.add("falsy_value_stored")
         if case["maxE"] == 0 and case["maxB"] == 0:
             t.add("disabled")
         return sorted(t) or ["default"]
